@@ -192,6 +192,9 @@ func (s *Session) verifyFunc(fn *ssa.Function, c *Contract) (vc *FnVC, err error
 	_ = exitSt
 	_ = results
 	for ri, r := range fr.rets {
+		if len(fr.rets) > 1 {
+			vc.curGroup = fmt.Sprintf("ret%d", ri+1)
+		}
 		post := r.st.clone()
 		env := fr.specEnv(post, fr.oldState)
 		env.entryOnly = true
@@ -221,6 +224,7 @@ func (s *Session) verifyFunc(fn *ssa.Function, c *Contract) (vc *FnVC, err error
 			vc.oblige(name, r.reach, t, info, fn.Pos())
 		}
 	}
+	vc.curGroup = ""
 	if s.probeFalse {
 		vc.oblige("probe:false", exitReach, tFalse, "vacuity probe: must NOT be provable", fn.Pos())
 	}
